@@ -8,8 +8,9 @@
 (* call is an operator  Eff(st, o)  returning the state the corresponding  *)
 (* Python list operation produces, written from the documentation:         *)
 (*   - a transform with an expand_transform contributes the UNIT           *)
-(*     <<expand, transform>>; pop / remove of the transform also removes   *)
-(*     the expand transform directly in front of it;                       *)
+(*     <<expand, transform>>, both bound to the same positional / keyword  *)
+(*     configuration; pop / remove of the transform also removes the       *)
+(*     identically configured expand transform directly in front of it;    *)
 (*   - documented rejections: a second terminal (final) transform          *)
 (*     ("already has a terminal transform"), insert of a terminal transform*)
 (*     into a non-empty pipeline, `*` of a pipeline with a terminal        *)
@@ -36,7 +37,10 @@ None == 99                       \* Python None in an integer slot (slice bound,
 
 \* ---------------------------------------------------------------- transform kinds
 IsFinal(k) == k \in {"f", "g"}
-Expand(k) == IF k = "x" THEN "xe" ELSE IF k = "g" THEN "ge" ELSE ""
+\* "xp" / "xk" are the transform x CONFIGURED with a positional / a keyword argument (x(7), x(c=7)): the companion expand
+\* entry is the expand transform bound to the SAME configuration ("xep" / "xek"), never the unconfigured "xe" -- this is
+\* what pop / remove recognise the pair by, and what makes the pipeline agree with transform(tape, 7) applied by hand
+Expand(k) == CASE k = "x" -> "xe" [] k = "xp" -> "xep" [] k = "xk" -> "xek" [] k = "g" -> "ge" [] OTHER -> ""
 Unit(k) == IF Expand(k) = "" THEN <<k>> ELSE <<Expand(k), k>>
 HasFinal(s) == \E p \in 1..Len(s) : IsFinal(s[p])
 NFinal(s) == Cardinality({p \in 1..Len(s) : IsFinal(s[p])})
